@@ -101,7 +101,7 @@ def entry_text(n: Node, sp: Spelling) -> str:
             lits = ("'A.B'", "'COMP'", "'COMP-3'", '"BINARY"', "'IT''S'", '"A""B"', "'X''YZ'")
             lit = "ZERO" if (n.pic or "").upper().lstrip("S").startswith("9") else \
                 ("'A.\x00B'" if sp.extra == "value-dot" else lits[(n.level + len(n.name or "")) % 7])   # \x00: a blank no rewrite may break at
-            clauses.append(("extra", f"{kw('VALUE')} {lit}"))
+            clauses.append(("extra", f"{kw('VALUE')}" + (f" {kw('IS')}" if (n.level + len(n.name or "")) % 2 else "") + f" {lit}"))
         elif sp.extra in ("just", "just-last") and (n.pic or "").upper().startswith("X"):
             clauses.append(("extra", f"{kw('JUSTIFIED')} {kw('RIGHT')}" if sp.extra == "just" else kw("JUST")))
         elif sp.extra in ("blank", "blank-zeros") and (n.pic or "").upper().lstrip("S").startswith("9") and not usage:
@@ -429,6 +429,9 @@ def explore(ck: Check, n_trees: int, n_compositions: int) -> None:
             continue
         a, b = names[0], names[-1]
         templ = text.replace(a, "'PFX'-A").replace(b, "'SFX'-B") if rng.random() < 0.7 else text
+        if rng.random() < 0.5:
+            # the same tag twice on ONE source line: every occurrence is replaced
+            templ = templ.replace(" 01 ", " 01 'PFX'-'PFX'-", 1)
         reps = [("'PFX'", "P1"), ("'SFX'", "S2"), ("'NONE'", "ZZ")][: rng.randint(1, 3)]
         want_text = templ
         for o, nw in reps:
